@@ -367,7 +367,7 @@ theorem mem_methods {s : Sys} {p c : Nat} :
 
 theorem resolvesHref_full (s : Sys) (pg f : File) (fr : Option Name) :
     resolvesHref s pg ⟨some f, fr⟩ = true ↔ f ∈ written s ∧ (∀ a, fr = some a → a ∈ anchorsOf s f) := by
-  unfold resolvesHref
+  unfold resolvesHref resolvesHrefIn
   cases fr <;> simp
 
 /-- **C11** every visible module, package and class reached through `contents` has its own page at the
@@ -1122,7 +1122,7 @@ theorem shorten_resolves (s : Sys) (pg : File) (u : Url) (ctx : Option File)
         simp only
         split
         · rename_i he
-          simp [resolvesHref, he]
+          simp [resolvesHref, resolvesHrefIn, he]
         · rfl
       · rw [hf] at h; cases h
 
@@ -1135,7 +1135,7 @@ theorem resolves_of_visible {s : Sys} (w : WF s) (e : Emit) (hv : visible s e.ta
     (hc : ctxOk s e) : resolves s e = true := by
   have hi := visible_lt hv
   have hu := (url_resolves_iff_visible w hi).mpr hv
-  unfold resolves href
+  unfold resolves resolvesIn href
   unfold urlResolves at hu
   cases hurl : url s e.target with
   | none => rw [hurl] at hu; cases hu
@@ -1143,6 +1143,7 @@ theorem resolves_of_visible {s : Sys} (w : WF s) (e : Emit) (hv : visible s e.ta
     rw [hurl] at hu
     simp only [Option.map_some, Bool.or_eq_true, Bool.not_eq_true']
     right
+    show resolvesHref s e.page (shorten u e.ctx) = true
     rw [shorten_resolves]
     · rw [resolvesHref_full] at hu ⊢; exact hu
     · rcases hc with h | h | h
@@ -1212,9 +1213,9 @@ written and, if it has a fragment, to an anchor of that file.
 theorem links_resolve {s : Sys} (w : WF s) {e : Emit} (h : e ∈ emits s) : resolves s e = true := by
   rcases mem_emits h with ⟨hr, hv⟩ | ⟨hl, _⟩
   · cases hlink : e.row.isLink with
-    | false => simp [resolves, hlink]
+    | false => simp [resolves, resolvesIn, hlink]
     | true => exact resolves_of_visible w e hv (ctx_ok w hr hlink)
-  · simp [resolves, hl]
+  · simp [resolves, resolvesIn, hl]
 
 /-! ### historical counterexamples: how the statement failed before the fixes -/
 
